@@ -159,7 +159,8 @@ def generate(prop, rng, tier):
     e = gen.edges(wp)
     big = tier == 'thorough' and rng.random() < 0.4
     pool = gen.gen_degenerate_pool(rng, wp) if rng.random() < 0.3 else \
-        gen.gen_pool(rng, wp, nmax=8 if big else 6, nspk=14 if big else 8)
+        gen.gen_pool(rng, wp, nmax=8 if big else 6, nspk=14 if big else 8,
+                     long_p=0.03 if tier == 'thorough' else 0.012)
     specs = [{'s': s, 'e': list(e)} for s in pool]
     nops = rng.randint(6, 14) if tier == 'quick' else rng.randint(10, 30)
     subset = [m for m in PLANNABLE if rng.random() < 0.5]
